@@ -70,9 +70,12 @@ fn main() {
             let meta = serde_json::json!({
                 "suite": suite, "profile": profile, "seed": seed, "shards": shards,
                 "events": ctx.sink.events, "distinct_nontrivial": ctx.sink.nontrivial.len(),
-                "panics": ctx.sink.panics, "per_op": ctx.sink.per_op, "samples": ctx.sink.samples,
+                "panics": ctx.sink.panics, "screened": ctx.sink.screened, "per_op": ctx.sink.per_op, "samples": ctx.sink.samples,
             });
             std::fs::write(format!("{dir}/meta.json"), serde_json::to_string_pretty(&meta).unwrap()).unwrap();
+        }
+        "screen" => {
+            elem::screen_hist(&args[2], args[3].parse().unwrap(), args[4].parse().unwrap(), args[5].parse().unwrap(), 7);
         }
         "exec" => {
             guard::watchdog(format!("{}.TIMEOUT", args[3]), 10);
